@@ -138,6 +138,9 @@ def gen_history(rng, cid, profile="mixed", probe_p=0.15, gc_p=0.06, reopen_p=0.0
             if profile == "conflict":
                 lvl = r.choice(["RR", "SER", "RR", "SER", "RC", "RU"])
             h.begin(lvl)
+            if r.random() < 0.4:
+                # boundary: a committed write that draws the number right after the Begin's
+                h.set(0, big=False)
         elif x < 0.40:
             t = r.choice(h.open + [0]) if h.open else 0
             if profile == "conflict" and h.open and r.random() < 0.8:
